@@ -236,6 +236,11 @@ func compareWitness(c replayCase, r replayResult) string {
 	got := r.Events
 	// opaque observations are not compared
 	eq := len(want) == len(got)
+	if c.expectEnd == "stopped" {
+		// the path ended at a failed obligation (known finding): natively the
+		// same obligation fails; only the common prefix is comparable
+		eq = len(got) >= len(want)
+	}
 	if eq {
 		for i := range want {
 			if want[i] != got[i] && !strings.Contains(want[i], "<opaque>") {
